@@ -114,6 +114,28 @@ def normalize_ws(text):
     return re.sub(r'\s+', ' ', text)
 
 
+def normalize_ws_keep_literals(text):
+    """white space outside string / character literals is layout (runs collapse to one blank); inside a literal every
+    character counts"""
+    out, i, n = [], 0, len(text)
+    while i < n:
+        c = text[i]
+        if c in '"\'':
+            j = i + 1
+            while j < n and text[j] != c:
+                j += 2 if text[j] == '\\' else 1
+            out.append(text[i:j + 1])
+            i = j + 1
+        elif c.isspace():
+            while i < n and text[i].isspace():
+                i += 1
+            out.append(' ')
+        else:
+            out.append(c)
+            i += 1
+    return ''.join(out)
+
+
 def split_top_level(s, sep=','):
     """split on sep at bracket depth 0 (quotes respected)"""
     out, depth, cur, i, n = [], 0, [], 0, len(s)
@@ -285,8 +307,14 @@ def dispatch_problems(files, module):
             ok = base.endswith("_deconstructor") and stem in base
         elif func.startswith("get."):
             ok = ("_get_" + f) in base
+            body = routine_body(files, module, r)
+            if ok and body is not None and not (re.search(r'->%s\b' % re.escape(f), body) and "out[0]" in body):
+                probs.append("id %d: routine %s, reached from %s/%s, does not return the member %s" % (sid, r, path, func, f))
         elif func.startswith("set."):
             ok = ("_set_" + f) in base
+            body = routine_body(files, module, r)
+            if ok and body is not None and not re.search(r'->%s\s*=' % re.escape(f), body):
+                probs.append("id %d: routine %s, reached from %s/%s, does not assign the member %s" % (sid, r, path, func, f))
         elif f in ("string_serialize", "string_deserialize"):
             ok = base.endswith(f)
         elif 'classdef' in files[path]:
@@ -299,6 +327,43 @@ def dispatch_problems(files, module):
     for cid, r in cases:
         if cid not in site_ids:
             probs.append("case %d (%s) has no call site in any .m file" % (cid, r))
+    probs += arity_problems(files, module, cmap)
+    return probs
+
+
+def routine_body(files, module, name):
+    cpp = files.get(module + "_wrapper.cpp", "")
+    m = re.search(r'^void %s\(int nargout, mxArray \*out\[\], int nargin, const mxArray \*in\[\]\)\n\{(.*?)^\}' % re.escape(name), cpp, re.M | re.S)
+    return m.group(1) if m else None
+
+
+def arity_problems(files, module, cmap):
+    """overload agreement: a call site guarded by `length(varargin) == N` must reach a routine that checks for N arguments
+    (methods, static methods, free functions; `checkArguments(name, nargout, nargin[-1], N)`)"""
+    cpp = files.get(module + "_wrapper.cpp", "")
+    expected = {}
+    for m in re.finditer(r'^void (\w+)\(int nargout, mxArray \*out\[\], int nargin, const mxArray \*in\[\]\)\n\{(.*?)^\}', cpp, re.M | re.S):
+        k = re.search(r'checkArguments\("[^"]*",nargout,nargin(?:-1)?,(\d+)\);', m.group(2))
+        if k:
+            expected[m.group(1)] = int(k.group(1))
+    probs = []
+    for path, text in sorted(files.items()):
+        if not path.endswith(".m"):
+            continue
+        lines = text.split("\n")
+        for i, l in enumerate(lines):
+            g = re.match(r'\s*(?:if|elseif) length\(varargin\) == (\d+)', l)
+            if not g:
+                continue
+            for nxt in lines[i + 1:i + 3]:
+                c = re.search(r'%s_wrapper\((\d+), (?:this, )?varargin\{:\}\)' % re.escape(module), nxt)
+                if c:
+                    sid = int(c.group(1))
+                    r = cmap.get(sid)
+                    if r in expected and expected[r] != int(g.group(1)):
+                        probs.append("id %d: call site in %s passes %s arguments, routine %s checks for %d"
+                                     % (sid, path, g.group(1), r, expected[r]))
+                    break
     return probs
 
 
